@@ -837,6 +837,7 @@ class Inliner:
                                                            not any(isinstance(x, ast.Name) and x.id == st.targets[0].id and isinstance(x.ctx, ast.Load)
                                                                    for x in ast.walk(fd)))] or fd.body
                 _groups_desugar(fd)
+                _method_choice(fd)
             F().visit(tree)
             _drop_pass(tree)
 
@@ -987,6 +988,98 @@ def _groups_desugar(fd):
                     for j in range(i + 1, len(stmts)):
                         stmts[j] = _Subst(env).visit(stmts[j])
                         ast.fix_missing_locations(stmts[j])
+                    del stmts[i]
+                    continue
+            if isinstance(st, ast.Assign) and len(st.targets) == 1 and isinstance(st.targets[0], ast.Name) and isinstance(st.value, ast.Call) and \
+                    isinstance(st.value.func, ast.Attribute) and st.value.func.attr == 'group' and isinstance(st.value.func.value, ast.Name) and \
+                    len(st.value.args) == 1 and isinstance(st.value.args[0], ast.Constant) and not st.value.keywords:
+                # x = m.group(k): a plain name for one group
+                mv = st.value.func.value.id
+                nm = st.targets[0].id
+                rest = stmts[i + 1:]
+                sto = _stores(rest)
+                whole = _stores(fd.body)
+                # every assignment of this name in the function is such a group copy, and every read of it follows one in the same block
+                def covered():
+                    cands = []      # (rest statements) of every `nm = <m>.group(k)` in the function
+                    def scan(L):
+                        for idx_, x_ in enumerate(L):
+                            if isinstance(x_, ast.Assign) and len(x_.targets) == 1 and isinstance(x_.targets[0], ast.Name) and x_.targets[0].id == nm:
+                                v_ = x_.value
+                                if not (isinstance(v_, ast.Call) and isinstance(v_.func, ast.Attribute) and v_.func.attr == 'group' and len(v_.args) == 1 and
+                                        isinstance(v_.args[0], ast.Constant)):
+                                    return False
+                                cands.append(L[idx_ + 1:])
+                            for fld_ in ('body', 'orelse', 'finalbody'):
+                                L2 = getattr(x_, fld_, None)
+                                if isinstance(L2, list) and L2 and isinstance(L2[0], ast.stmt) and not isinstance(x_, (ast.FunctionDef, ast.ClassDef)):
+                                    if scan(L2) is False:
+                                        return False
+                        return True
+                    if scan(fd.body) is False:
+                        return False
+                    n_stores = sum(1 for x_ in _walk_no_defs(fd.body) if isinstance(x_, ast.Name) and x_.id == nm and isinstance(x_.ctx, (ast.Store, ast.Del)))
+                    if n_stores != len(cands):
+                        return False
+                    inside = {id(y_) for r_ in cands for x_ in r_ for y_ in ast.walk(x_)}
+                    return all(id(x_) in inside for x_ in _walk_no_defs(fd.body) if isinstance(x_, ast.Name) and x_.id == nm and isinstance(x_.ctx, ast.Load))
+                if mv not in sto and nm not in sto and (whole.get(nm, 0) == 1 or covered()):
+                    env = {nm: st.value}
+                    for j in range(i + 1, len(stmts)):
+                        stmts[j] = _Subst(env).visit(stmts[j])
+                        ast.fix_missing_locations(stmts[j])
+                    del stmts[i]
+                    continue
+            i += 1
+    walk_blocks(fd.body)
+
+
+def _method_choice(fd):
+    """`if c: f = obj.m1 else: f = obj.m2` ... `x = f(args)`  ->  `if c: x = obj.m1(args) else: x = obj.m2(args)`
+    (a bound method chosen first and called once; also the single-assignment form `f = obj.m`)."""
+    def walk_blocks(stmts):
+        i = 0
+        while i < len(stmts):
+            st = stmts[i]
+            for fld in ('body', 'orelse', 'finalbody'):
+                L = getattr(st, fld, None)
+                if isinstance(L, list) and L and isinstance(L[0], ast.stmt) and not isinstance(st, (ast.FunctionDef, ast.ClassDef)):
+                    walk_blocks(L)
+            name = alts = test = None
+            if isinstance(st, ast.If) and len(st.body) == 1 and len(st.orelse) == 1 and all(
+                    isinstance(x, ast.Assign) and len(x.targets) == 1 and isinstance(x.targets[0], ast.Name) and isinstance(x.value, ast.Attribute)
+                    for x in (st.body[0], st.orelse[0])) and st.body[0].targets[0].id == st.orelse[0].targets[0].id:
+                name, alts, test = st.body[0].targets[0].id, (st.body[0].value, st.orelse[0].value), st.test
+            elif isinstance(st, ast.Assign) and len(st.targets) == 1 and isinstance(st.targets[0], ast.Name) and isinstance(st.value, ast.Attribute) and \
+                    isinstance(st.value.value, (ast.Name, ast.Attribute)):
+                name, alts = st.targets[0].id, (st.value,)
+            if name is not None:
+                whole_loads = [x for x in _walk_no_defs(fd.body) if isinstance(x, ast.Name) and x.id == name and isinstance(x.ctx, ast.Load)]
+                stores = _stores(fd.body).get(name, 0)
+                # the one use: a later statement of this block whose value is exactly the call f(...)
+                j = None
+                for k in range(i + 1, len(stmts)):
+                    x = stmts[k]
+                    v = x.value if isinstance(x, (ast.Assign, ast.Expr, ast.Return)) else None
+                    if isinstance(v, ast.Call) and isinstance(v.func, ast.Name) and v.func.id == name:
+                        j = k
+                        break
+                    if any(isinstance(y, ast.Name) and y.id == name for y in ast.walk(x)):
+                        break
+                test_names = {y.id for y in ast.walk(test) if isinstance(y, ast.Name)} if test is not None else set()
+                between = stmts[i + 1:j] if j is not None else []
+                if j is not None and len(whole_loads) == 1 and stores == len(alts) and not (test_names & set(_stores(between))):
+                    use = stmts[j]
+                    def with_(alt):
+                        u = astcopy(use)
+                        u.value.func = astcopy(alt)
+                        return u
+                    if test is None:
+                        new = with_(alts[0])
+                    else:
+                        new = ast.copy_location(ast.If(test=test, body=[with_(alts[0])], orelse=[with_(alts[1])]), use)
+                    ast.fix_missing_locations(new)
+                    stmts[j] = new
                     del stmts[i]
                     continue
             i += 1
